@@ -5,6 +5,7 @@ import (
 	"bufio"
 	"bytes"
 	"encoding/binary"
+	"errors"
 	"fmt"
 	"io"
 	"math/rand"
@@ -78,6 +79,9 @@ func genIndex(rng *rand.Rand, sha256 bool) desync.Index {
 		n = 2
 	case 3:
 		n = 500 + rng.Intn(4500)
+	case 4:
+		// counts at and around powers of two and their multiples (batching boundaries of any encoder)
+		n = []int{64, 128, 256, 512, 768, 1024, 2048, 4096}[rng.Intn(8)] + rng.Intn(3) - 1
 	default:
 		n = rng.Intn(60)
 	}
@@ -117,6 +121,46 @@ func genIndex(rng *rand.Rand, sha256 bool) desync.Index {
 		start += size
 	}
 	return idx
+}
+
+type fragReader struct {
+	b   []byte
+	rng *rand.Rand
+	max int
+}
+
+func (f *fragReader) Read(p []byte) (int, error) {
+	if len(f.b) == 0 {
+		return 0, io.EOF
+	}
+	n := 1 + f.rng.Intn(f.max)
+	if n > len(p) {
+		n = len(p)
+	}
+	if n > len(f.b) {
+		n = len(f.b)
+	}
+	copy(p, f.b[:n])
+	f.b = f.b[n:]
+	return n, nil
+}
+
+type failWriter struct {
+	limit int
+	n     int
+}
+
+func (f *failWriter) Write(p []byte) (int, error) {
+	if f.n+len(p) > f.limit {
+		w := f.limit - f.n
+		if w < 0 {
+			w = 0
+		}
+		f.n += w
+		return w, errors.New("no space left on device (injected)")
+	}
+	f.n += len(p)
+	return len(p), nil
 }
 
 func sameIndex(a, b desync.Index) string {
@@ -203,6 +247,33 @@ func run(c *harness.Ctx, i int) {
 		c.Violation("roundtrip", "WriteTo -> IndexFromReader is not the identity: %s", d)
 		return
 	}
+	// the same bytes arriving in pieces of arbitrary sizes (a pipe, an HTTP body, stdin)
+	if rng.Intn(3) == 0 {
+		fr := &fragReader{b: raw, rng: rng, max: []int{1, 3, 7, 13, 997, 1001}[rng.Intn(6)]}
+		back2, err := desync.IndexFromReader(fr)
+		if err != nil {
+			c.Violation("read-fragmented", "IndexFromReader fails on the bytes WriteTo wrote when they arrive in pieces of at most %d bytes: %v", fr.max, err)
+			return
+		}
+		if d := sameIndex(idx, back2); d != "" {
+			c.Violation("read-fragmented", "IndexFromReader reads another table when the bytes arrive in pieces of at most %d bytes: %s", fr.max, d)
+			return
+		}
+		c.Count("fragmented_reads", 1)
+	}
+	// a destination that fails after k bytes (disk full, closed pipe): WriteTo must not report success
+	if rng.Intn(3) == 0 {
+		k := rng.Intn(len(raw))
+		if rng.Intn(2) == 0 {
+			k = len(raw) - 1 - rng.Intn(min(len(raw), 200)) // in the last bytes
+		}
+		fw := &failWriter{limit: k}
+		if _, err := idx.WriteTo(fw); err == nil {
+			c.Violation("write-error-lost", "Index.WriteTo returned nil although the writer failed after %d of %d bytes", k, len(raw))
+			return
+		}
+		c.Count("failing_writers", 1)
+	}
 	switch leg {
 	case "roundtrip":
 		if len(idx.Chunks) >= 2 {
@@ -242,6 +313,17 @@ func run(c *harness.Ctx, i int) {
 func storeLeg(c *harness.Ctx, rng *rand.Rand, idx desync.Index, raw []byte, sha256 bool) {
 	dir := c.CaseDir()
 	kind := []string{"local", "http", "s3", "sftp", "console"}[rng.Intn(5)]
+	if rng.Intn(12) == 0 {
+		// an index file name that leads to a device that is full
+		os.Symlink("/dev/full", filepath.Join(dir, "full.caibx"))
+		ls, e := desync.NewLocalIndexStore(dir)
+		dsu.Must(e)
+		if err := ls.StoreIndex("full.caibx", idx); err == nil {
+			c.Violation("write-error-lost", "LocalIndexStore.StoreIndex onto a full device reported success (%d chunks)", len(idx.Chunks))
+			return
+		}
+		c.Count("full_device_stores", 1)
+	}
 	name := "x.caibx"
 	var got desync.Index
 	var err error
